@@ -83,6 +83,39 @@ def check_run_argument_binding(A, R: Report, rid: str):
             'run() arguments are not bound by their own name from input tasks / declared parameters: ' + '; '.join(sorted(set(problems))), witness=[pretty(t)[:300]], where=where(fra))
 
 
+def check_parameter_copy(A, R: Report, rid: str):
+    """TaskParameterConfig.__init__: _data = {p.name_in_config: original_config[p.name_in_config] for every declared
+    parameter p whose name_in_config is in the original config} - the name looked up, the name tested and the name
+    stored under are the same expression."""
+    from ..terms import normalise, has_opaque
+    tpc = A.cls('TaskParameterConfig')
+    init = tpc.methods.get('__init__')
+    R.require(init is not None, 'anchor: TaskParameterConfig.__init__ missing')
+    S = A.sym
+    S._field_stores = []
+    S.func_term(init, ('inst', tpc))
+    st = [normalise(v) for c, t, v in S._field_stores if t.attr == '_data']
+    maps = [v for v in st if v[0] == 'mapdict']
+    if not maps:
+        R.undecided(rid, 'TaskParameterConfig.__init__: _data', 'copy of the parameter values not recognised', where=where(init))
+        return
+    m = maps[-1]
+    pv = m[1][-1]
+    kx = ('attr', pv, 'name_in_config')
+    seq_ok = m[4][0] in ('values', 'items') and any(x[0] == 'attr' and x[2] in ('parameters', '_parameters') for x in dag_nodes(m[4]))
+    key_ok = m[2] == kx
+    val_ok = m[3][0] == 'index' and m[3][2] == kx
+    g = m[5]
+    guard_ok = g is None or (g[0] == 'cmp' and g[1] == 'In' and g[2] == kx and g[3][0] != 'lit')
+    ok = seq_ok and key_ok and val_ok and guard_ok
+    if not ok and has_opaque(m):
+        R.undecided(rid, 'TaskParameterConfig.__init__: _data', 'copy of the parameter values involves a construct the term engine does not interpret', where=where(init))
+        return
+    R.check(ok, rid, 'TaskParameterConfig.__init__: _data', key_of('tpc-data', pretty(m)[:160] if not ok else 'ok'), 'copies exactly the declared names (name_in_config) from the original config',
+            f'the derived config is `{pretty(m)[:200]}`: a declared parameter is looked up / tested / stored under different names, so its configured value is lost (the task falls back to the default and tasks differing only in that value share one key)',
+            witness=[pretty(m)[:300]], where=where(init))
+
+
 def check_input_map(A, R: Report, rid: str, K):
     """TaskParameterConfig.input_tasks = {name: storage key of that input} over ALL Task-valued inputs."""
     im = K.INPUT_MAP
@@ -276,17 +309,7 @@ def run(A, R: Report, thorough: bool):
     R.require(sv, 'anchor: set_values call not found in Task._prepare_parameters')
     R.check(all(len(c.args) == 1 and src(c.args[0]) == 'self._config' for c in sv), 'R01.4', 'Task._prepare_parameters: set_values', key_of('own-config', [src(c) for c in sv]), 'values read from the task\'s own config',
             'parameters are filled from something other than the task\'s own config', where=where(fpp, sv[0]))
-    init = K.f_tpc_init
-    data_stores = [n for n in A.typer.own_nodes(init) if isinstance(n, ast.Assign) and isinstance(n.targets[0], ast.Subscript) and src(n.targets[0].value) == 'self._data']
-    if not data_stores:
-        R.undecided('R01.4', 'TaskParameterConfig.__init__: _data', 'copy loop not recognised', where=where(init))
-    for st in data_stores:
-        k, v = src(st.targets[0].slice), st.value
-        same_key = isinstance(v, ast.Subscript) and src(v.slice) == k and 'name_in_config' in k and 'original_config' in src(v.value)
-        loop = getattr(getattr(st, '_parent', None), '_parent', None)
-        loop_ok = isinstance(loop, ast.For) and 'original_task.parameters' in src(loop.iter)
-        R.check(same_key and loop_ok, 'R01.4', 'TaskParameterConfig.__init__: _data', key_of('tpc-data', src(st)), 'copies exactly the declared names from the original config',
-                f'`{src(st)}`: the derived config does not copy the value of the same name from the original config', where=where(init, st))
+    check_parameter_copy(A, R, 'R01.4')
 
     # ---- R01.5
     R.rule('R01.5', 'every run() argument is looked up under its own name in input_tasks / parameters', floor=1)
@@ -330,6 +353,20 @@ def run(A, R: Report, thorough: bool):
     R.rule('R01.9', 'context values reach a config only through deepcopy, and merging contexts never mutates or aliases its inputs', floor=2)
     from .c09 import check_context_isolation
     check_context_isolation(A, R, 'R01.9')
+    from .c09 import merge_order
+    okm, whym = merge_order(A, A.cls('Context').lookup('merge_contexts'))
+    if okm is None:
+        R.undecided('R01.9', 'Context.merge_contexts: order', whym, where=where(A.cls('Context').lookup('merge_contexts')))
+    else:
+        R.check(okm, 'R01.9', 'Context.merge_contexts: order', key_of('merge-order', whym), 'later contexts win, entries merged into fresh accumulators',
+                f'contexts are not merged by overwriting updates into fresh accumulators ({whym}): values of one chain construction reach a later one', where=where(A.cls('Context').lookup('merge_contexts')))
+    # ---- R01.11 / R01.12 rules shared with C08 and C06: a declared input is bound inside the declaring namespace; stored sequences come back in order
+    from .c08 import check_resolver_call
+    from .c06 import check_index_order
+    R.rule('R01.11', 'a declared input is resolved inside the namespace of the declaring config (never bound to a same-named task of another namespace)', floor=1)
+    check_resolver_call(A, R, 'R01.11')
+    R.rule('R01.12', 'a stored list of arrays is read back in the order it was written', floor=1)
+    check_index_order(A, R, 'R01.12')
     # ---- R01.10 a config is what its file says now: construction reads the file, it keeps no parse state across configs
     from .purity import check_stateless
     R.rule('R01.10', 'Config / Context construction keeps no state outside the new object (no parse cache that could serve an earlier version of an edited file)', floor=2)
